@@ -57,7 +57,7 @@ PLANS["C16"] = {
              "sequence (sweep) or distinct bucketed feature vector (random)."),
     "assumptions": ["keys are strictly increasing in generated pushes (whole-item convention: erasing never reorders distinct keys)",
                     "exhaustive only up to the stated sequence length and key universe; random beyond"],
-    "required_features": ["c16.middle_removals", "c16.pops", "c16.bad_push_panics_observed", "c16.successful_finds"],
+    "required_features": ["c16.middle_removals", "c16.pops", "c16.bad_push_panics_observed", "c16.successful_finds", "c16.histories_with_32_or_more_middle_removals"],
     "quick": [R("deque-c16", "dbg", sweep_len=7, universe=5, cases=200000),
               R("deque-c16", "rel", sweep_len=6, universe=5, cases=400000)],
     "thorough": [R("deque-c16", "dbg", sweep_len=8, universe=5, cases=400000),
@@ -96,6 +96,9 @@ CODEC_REQ = [
     "codec.prod.terminator_after_full_chunk", "codec.prod.zero_length_chunk", "codec.prod.call_boundary_at_chunk_limit",
     "codec.enc.method.Borrow", "codec.enc.method.Copy", "codec.enc.method.Anchored", "codec.enc.method.Read",
     "codec.dec.method.Borrow", "codec.dec.method.Copy", "codec.dec.method.Anchored", "codec.dec.method.Read",
+    "codec.enc.method.AnchoredSplitHold", "codec.dec.method.AnchoredSplitHold",
+    "codec.reuse.encoder.anchored_slices_carried_into_the_next_message",
+    "codec.reuse.decoder.anchored_slices_carried_into_the_next_message",
     "codec.enc.drain.consume", "codec.enc.drain.advance_slices", "codec.enc.drain.read",
 ]
 
@@ -185,7 +188,7 @@ IOVEC_REQ = [
 PLANS["C03"] = {
     "level": "exploration",
     "technique": "shadow-pipe reference monitor evaluated on every live iovec after every operation of random multi-iovec histories (dbg incl. crate rep-checks; rel volume, ASan and Miri in the thorough tier)",
-    "rule": IOVEC_RULE, "assumptions": IOVEC_ASSUME, "required_features": IOVEC_REQ,
+    "rule": IOVEC_RULE, "assumptions": IOVEC_ASSUME, "required_features": IOVEC_REQ + ["iovec.single_advance_across_more_than_1024_slices"],
     "quick": [R("iovec", "dbg", cases=300000, focus="C03"),
               R("iovec", "rel", cases=300000, focus="C03")],
     "thorough": [R("iovec", "dbg", cases=3000000, focus="C03"),
@@ -196,7 +199,7 @@ PLANS["C03"] = {
 PLANS["C04"] = {
     "level": "exploration",
     "technique": "shadow-pipe monitor with placeholder marks: observed bytes never reach the earliest pending placeholder, accessor Ok/Err status == (no placeholder pending), placeholder-heavy random histories with out-of-order fills",
-    "rule": IOVEC_RULE, "assumptions": IOVEC_ASSUME, "required_features": IOVEC_REQ,
+    "rule": IOVEC_RULE, "assumptions": IOVEC_ASSUME, "required_features": IOVEC_REQ + ["iovec.rejected_wrong_size_backfills", "iovec.histories_with_32_or_more_placeholders_in_flight"],
     "quick": [R("iovec", "dbg", cases=300000, focus="C04"),
               R("iovec", "rel", cases=300000, focus="C04")],
     "thorough": [R("iovec", "dbg", cases=3000000, focus="C04"),
@@ -241,7 +244,8 @@ PLANS["C08"] = {
     "rule": STREAM_RULE, "assumptions": STREAM_ASSUME,
     "required_features": ["stream.chunker.sentinels", "stream.chunker.fe_first_byte_of_next_chunk", "stream.chunker.trailing_FE_at_end_of_stream",
                           "stream.chunker.FE_FE_FD", "stream.chunker.block_size_below_2", "stream.chunker.reader_interrupts",
-                          "stream.chunker.arena.NearlyFull", "stream.chunker.arena.SwapBetween", "stream.chunker.block_size_changed_between_pumps"],
+                          "stream.chunker.arena.NearlyFull", "stream.chunker.arena.SwapBetween", "stream.chunker.block_size_changed_between_pumps",
+                          "stream.chunker.more_than_65536_interrupts_in_one_stream"],
     "quick": [R("stream", "dbg", mode="chunker", chunk_cases=1500000)],
     "thorough": [R("stream", "dbg", mode="chunker", chunk_cases=20000000),
                  R("stream", "rel", mode="chunker", chunk_cases=40000000),
@@ -253,7 +257,8 @@ PLANS["C06"] = {
     "rule": STREAM_RULE, "assumptions": STREAM_ASSUME,
     "required_features": ["stream.reader.records_returned", "stream.reader.oversize_skipped", "stream.reader.invalid_segments_skipped",
                           "stream.reader.judge_skipped", "stream.reader.stopped_by_limit", "stream.reader.block_size_below_2",
-                          "stream.reader.default_block_size", "stream.reader.log_truncation_points", "stream.reader.reader_interrupts"],
+                          "stream.reader.default_block_size", "stream.reader.log_truncation_points", "stream.reader.reader_interrupts",
+                          "stream.reader.1MiB_blocks_on_a_stream_longer_than_2MiB"],
     "quick": [R("stream", "dbg", mode="reader,logs", reader_cases=1000000, log_cases=200)],
     "thorough": [R("stream", "dbg", mode="reader,logs", reader_cases=16000000, log_cases=4000),
                  R("stream", "rel", mode="reader,logs", reader_cases=30000000, log_cases=4000),
@@ -275,7 +280,8 @@ PLANS["C17"] = {
     "assumptions": ["exhaustive only up to the stated script length; random beyond",
                     "the scripted reader logs the buffer length and outcome of every call it receives"],
     "required_features": ["readn.result.ok_full", "readn.result.ok_short", "readn.result.ok_empty_on_eof", "readn.result.err_nothing_delivered",
-                          "readn.eintr_retried", "readn.attempt_limit_reached", "readn.target.1", "readn.target.2", "readn.target.3", "readn.target.4"],
+                          "readn.eintr_retried", "readn.attempt_limit_reached", "readn.target.1", "readn.target.2", "readn.target.3", "readn.target.4",
+                          "readn.wrapper.output_drained_before_the_read", "readn.wrapper.arena_moved_on_after_the_read"],
     "quick": [R("readn", "dbg", script_len=6, wrapper_script_len=5, cases=3000000)],
     "thorough": [R("readn", "dbg", script_len=8, wrapper_script_len=6, cases=40000000),
                  R("readn", "asan", script_len=4, wrapper_script_len=3, cases=100000),
@@ -300,7 +306,7 @@ PLANS["C11"] = {
                           "tlv.c11.kind.Nested3", "tlv.c11.kind.View", "tlv.c11.ctor.New", "tlv.c11.ctor.FromSlice", "tlv.c11.ctor.FromSorted",
                           "tlv.c11.sink.Hcobs", "tlv.c11.repeated_tags", "tlv.c11.empty_list", "tlv.c11.single_pair", "tlv.c11.large_list",
                           "tlv.c11.limits.accepted", "tlv.c11.limits.rejected", "tlv.c11.limits.total_exactly_i32_max",
-                          "tlv.c11.limits.total_one_over", "tlv.c11.limits.single_value_one_over"],
+                          "tlv.c11.limits.total_one_over", "tlv.c11.limits.single_value_one_over", "tlv.c11.limits.claimed_length_of_2^32_or_more"],
     "quick": [R("tlv-c11", "dbg", cases=10000000, claim_cases=8000000)],
     "thorough": [R("tlv-c11", "dbg", cases=150000000, claim_cases=50000000),
                  R("tlv-c11", "rel", cases=300000000, claim_cases=100000000, count_probe=0),
@@ -405,7 +411,8 @@ PLANS["C18"] = {
                     "the frozen thread is released only after the verdict"],
     "required_features": ["park.writer_frozen_holding_lock", "park.writer_frozen_without_lock", "park.second_writer_blocked", "park.solo_paused_mid_read",
                           "park.solo_retried_after_writes_completed", "park.try_update_true", "park.try_update_false_lock_held",
-                          "park.static_writer_frozen_holding_lock", "park.static_solo_observe_file_time", "park.frozen_before_Store", "park.frozen_after_Store", "park.frozen_before_Unlock"],
+                          "park.static_writer_frozen_holding_lock", "park.static_solo_observe_file_time", "park.frozen_before_Store", "park.frozen_after_Store", "park.frozen_before_Unlock",
+                          "park.many_try_updates_in_a_row_lock_held", "park.many_try_updates_in_a_row_lock_free"],
     "quick": [R("park", "dbg", repeats=16, max_freeze=24)],
     "thorough": [R("park", "dbg", repeats=64, max_freeze=24),
                  R("park", "rel", repeats=64, max_freeze=24),
